@@ -207,3 +207,46 @@ func zzC10ModRsp() {
 
 func ZZ_C10_Notify() { zzC10Notify() }
 func ZZ_C10_ModRsp() { zzC10ModRsp() }
+
+// The owner of a session can change while it lives: a Session Modification Request carrying another
+// Node ID hands the session to that control-plane node (takeover). Reports generated before go to
+// the old owner, reports generated afterwards to the new one - whatever was sent earlier.
+func zzC10AfterTakeover() {
+	dp := &zzDP{}
+	s := zzNewServer(dp)
+	dp.ln = &s.lnode
+	n := s.NewNode(zzNodeA, zzAddrA, dp)
+	s.rnodes[zzNodeA] = n
+	cp := nondetU64("cpseid")
+	sess := n.NewSess(cp)
+	info := &URRInfo{}
+	info.VOLUM = true
+	sess.URRIDs[1] = info
+	m := zzMkMeasured()
+	zzAssume(m.urr == 1)
+	early := nondetChoice("reports-before-takeover", 3)
+	for i := 0; i < early; i++ {
+		s.ServeReport(&report.SessReport{SEID: sess.LocalID, Reports: []report.Report{m.usar()}})
+		zzAssert("C10.takeover.before.one-request", zzSentCount() == i+1)
+		if zzSentCount() == i+1 {
+			zzAssert("C10.takeover.before.to-old-owner", zzSentAddr(i).String() == zzAddrA.String())
+		}
+	}
+	// takeover by node B (the request comes from B's address and names B)
+	zzDeliver(s, zzModReq(sess.LocalID, 9, ie.NewNodeID(zzNodeB, "", "")), zzAddrB, 9)
+	base := zzSentCount()
+	zzAssert("C10.takeover.answered", base == early+1)
+	s.ServeReport(&report.SessReport{SEID: sess.LocalID, Reports: []report.Report{m.usar()}})
+	zzAssert("C10.takeover.after.one-request", zzSentCount() == base+1)
+	if zzSentCount() == base+1 {
+		b := zzSentBytes(base)
+		h := zzParseHdr(b)
+		zzAssert("C10.takeover.after.report-request", h.ok && h.typ == 56 && h.s && h.seid == cp)
+		zzAssert("C10.takeover.after.to-new-owner", zzSentAddr(base).String() == zzAddrB.String())
+		urs := zzUsageReports(b, h, 80)
+		zzAssert("C10.takeover.after.one-usage-report", len(urs) == 1)
+	}
+	zzCover("C10.takeover.done")
+}
+
+func ZZ_C10_AfterTakeover() { zzC10AfterTakeover() }
